@@ -81,6 +81,9 @@ impl Dev {
     pub fn handle(&self) -> Dev {
         Dev { st: self.st.clone(), pos: 0 }
     }
+    pub fn pos(&self) -> u64 {
+        self.pos
+    }
     pub fn bytes(&self) -> Vec<u8> {
         self.st.borrow().data.clone()
     }
